@@ -61,7 +61,11 @@ End == /\ l <= Len(Trace) /\ Ev.event = "end" /\ l' = l + 1
        /\ ex[<<30, 4>>].defs = committed.defs /\ ex[<<30, 4>>].whole = committed.whole        \* CommittedIsCurrent
        /\ refs \subseteq DOMAIN committed.defs                                                  \* RefsResolve
        /\ UNCHANGED <<cs, ex, committed, refs>>
-Next == Build \/ Extract \/ Committed \/ End
+\* `gnark-mbu export-solidity`: the verifier contract takes exactly one public input (uint256[1] calldata input)
+Solidity == /\ l <= Len(Trace) /\ Ev.event = "solidity" /\ l' = l + 1
+            /\ Ev.err = "" /\ Ev.inputs = 1
+            /\ UNCHANGED <<cs, ex, committed, refs>>
+Next == Build \/ Extract \/ Committed \/ Solidity \/ End
 Spec == Init /\ [][Next]_vars
 HighWater == TLCSet(1, IF l > TLCGet(1) THEN l ELSE TLCGet(1))
 TraceAccepted == PrintT(<<"HWM", TLCGet(1), Len(Trace)>>) /\ TLCGet(1) = Len(Trace) + 1
